@@ -313,7 +313,7 @@ func (it *Interp) indexAddr(fr *frame, instr *ssa.IndexAddr, x, idx Value) Value
 	if scalar && len(elems) <= 512 {
 		return &symElemPtr{elems: elems, idx: i}
 	}
-	k := it.ex.concretize(i, "index")
+	k := it.ex.concretizeRange(i, 0, int64(len(elems))-1, "index")
 	return &elems[k]
 }
 
@@ -391,9 +391,9 @@ func (it *Interp) slice(fr *frame, instr *ssa.Slice, x, lo, hi, max Value) Value
 	if !it.ex.branch(ok) {
 		panic(targetPanic{implicit: fmt.Sprintf("slice bounds out of range [%s:%s] with capacity %d", toString(l), toString(h), Cap)})
 	}
-	li := int(it.ex.concretize(l, "slice bound"))
-	hi2 := int(it.ex.concretize(h, "slice bound"))
-	mi := int(it.ex.concretize(m, "slice bound"))
+	li := int(it.ex.concretizeRange(l, 0, int64(Cap), "slice bound"))
+	hi2 := int(it.ex.concretizeRange(h, int64(li), int64(Cap), "slice bound"))
+	mi := int(it.ex.concretizeRange(m, int64(hi2), int64(Cap), "slice bound"))
 	switch x := x.(type) {
 	case Str:
 		return x.slice(li, hi2)
